@@ -242,6 +242,58 @@ PROPS = {
         "level_note": "Trusted: harness/refsearch (negamax + specification order), harness/oracle game rules. Depth is bounded by the exhaustive reference (2-3 in middlegames, up to 6 in sparse endings).",
         "technique": "property-based testing (rapid): differential against an independent exhaustive reference search; PV validity predicate; before/after state invariant",
     },
+    "C13": {
+        "title": "a window only clips the true value",
+        "run": "^TestC13_",
+        "level": "exploration",
+        "shards": 16,
+        "timeout": 600,
+        "thorough_scale": 10,
+        "thorough_timeout": 2400,
+        "rule": "C13/window: roots and configurations as in C03 (depth <= 4), each with a window (a, b) whose bounds are drawn relative "
+                "to the true value v computed by the exhaustive reference: v itself, its immediate neighbours in the order (next "
+                "float32 / one ply of mate distance), v shifted by -2..+3 plies or quarter pawns, mate / mated scores of distance "
+                "1-9, won, lost, other heuristic values; a < b in the specification order. AlphaBeta.Search with Context{Alpha, Beta} "
+                "(and, for quiescence configurations, Quiescence.QuietSearch called directly) must return r with r = v if a < v < b, "
+                "v <= r <= a if v <= a, b <= r <= v if v >= b. C13/quiescence: full-window quiescence on generated and terminal "
+                "positions never rates a position with a legal move below its static evaluation and rates checkmate / stalemate "
+                "exactly. Non-trivial = distinct (root, depth, config, window) with a finite mate-distance bound or a bound adjacent "
+                "or equal to v; quiescence cases all count. evaluations = windowed searches.",
+        "assumptions": COMMON_ASSUMPTIONS + ["same reference and discards as C03"],
+        "level_text": "Exploration: ~12k windowed searches per quick run judged by the three-way clip relation against an "
+                      "independent exhaustive value, with windows aimed at the places where off-by-one-ply errors show (bounds one "
+                      "and two plies either side of a mate value, bounds equal or adjacent to v).",
+        "level_note": "Trusted: harness/refsearch value and order; window bounds are constructed from v by the check itself.",
+        "technique": "property-based testing (rapid): metamorphic/differential - windowed search vs reference value under the clip relation",
+    },
+    "C11": {
+        "title": "the transposition table is transparent",
+        "run": "^TestC11_",
+        "level": "exploration",
+        "shards": 16,
+        "timeout": 600,
+        "thorough_scale": 10,
+        "thorough_timeout": 2400,
+        "rule": "C11/transparent: position-determined configurations only (material, synthetic position-hash evaluator, no-under-"
+                "promotion exploration, capture quiescence, BERNSTEIN plausible moves + evaluation); roots from generated games, "
+                "sparse boards and mating endings; real tables of 32 bytes (one slot), 64, 256, 4 KiB, 64 KiB and 4 MiB; SEQUENCES of "
+                "searches sharing one table: iterative deepening 1..D (+ repeat), the same search twice then another depth, and "
+                "successive positions of a game (search, play 1-2 moves, search again at D, D-1, D-2 ...). Every search of the "
+                "sequence must return the exhaustive reference value (= the value without a table), a non-empty PV when the root has "
+                "legal moves, and a first PV move whose reference value is the root value; a recording wrapper around the real table "
+                "snapshots the game state at every store and a drawn sample of the EXACT stores is validated against the reference "
+                "value of that position at that depth. Sequences whose reference trees contain a repetition or fifty-move draw, or "
+                "whose roots are drawn, are discarded and counted (the property's precondition). Non-trivial = distinct (root, "
+                "config, table size, sequence) in which at least one probe hit an entry (within a search or written by an earlier "
+                "search of the sequence). evaluations = sequences.",
+        "assumptions": COMMON_ASSUMPTIONS + ["table sizes >= 32 bytes (smaller sizes are not constructible: NewTranspositionTable panics)",
+                                             "stored positions are re-valued without their history, which is sound under the property's no-repetition precondition"],
+        "level_text": "Exploration: ~4k search sequences (~15k searches) per quick run, from one-slot to 4 MiB tables, each search "
+                      "compared with an independent exhaustive value and the exact stores spot-checked; the sensitive shape "
+                      "(one table shared over successive positions, varied leaf values) is generated by construction.",
+        "level_note": "Trusted: harness/refsearch; recording wrapper delegates to the real table unchanged.",
+        "technique": "property-based testing (rapid): differential (table vs reference/no table) over generated search sequences, recorded-store validation",
+    },
 }
 
 # Properties not claimed, with the reason (kept current).
